@@ -269,6 +269,17 @@ def one_fault(res, spec, year, forms, tmp, initial, full_answers, lookup, fault,
             initial = dict(initial)
             initial[q] = f'"{initial[q]}"' if isinstance(lookup.get(q), I_.EnumInput) and initial[q] else 'not sure yet'
             res.count('sessions_with_invalid_value_in_file')
+    # the file named the way a wrapper script or an IDE passes it on, with a leading `~` nobody expanded: whatever the program
+    # makes of the name, the file it reads is the file it writes the answers to, and the re-run (same name) finds them
+    tilde = fault[0] in ('sigint', 'eof') and isinstance(fault[1], int) and fault[1] % 7 == 4
+    path_arg = path
+    saved_cwd, saved_home = os.getcwd(), os.environ.get('HOME')
+    if tilde:
+        os.makedirs(os.path.join(tmp, '~'), exist_ok=True)
+        os.makedirs(os.path.join(tmp, 'home'), exist_ok=True)
+        path = os.path.join(tmp, '~', 'f.ini')
+        path_arg = os.path.join('~', 'f.ini')
+        res.count('sessions_with_unexpanded_tilde_in_file_name')
     write_ini(path, initial, annotated=annotated)
     if annotated:
         res.count('sessions_from_annotated_file')
@@ -280,6 +291,10 @@ def one_fault(res, spec, year, forms, tmp, initial, full_answers, lookup, fault,
         inp_ = lookup.get(name)
         if isinstance(fault[1], int) and fault[1] % 4 == 1 and type(inp_) is hx.inputs.StringInput and t_.strip():
             t_ = t_ + ', Jr. & Co. ($5 fee)'        # free text is stored as typed: commas, dollar signs, ampersands
+        if isinstance(fault[1], int) and fault[1] % 4 == 3 and type(inp_) is hx.inputs.StringInput and t_.strip():
+            # text pasted from a document: a line/paragraph separator, a form feed, a next-line character inside it - one line to the
+            # prompt, one line in the file, and one line again when the file is read
+            t_ = t_ + ['\u2028', '\x0c', '\x85', '\u2029', '\x0b'][(fault[1] // 4) % 5] + 'rear'
         return t_
     a.lookup = lookup
     kind = fault[0]
@@ -300,9 +315,15 @@ def one_fault(res, spec, year, forms, tmp, initial, full_answers, lookup, fault,
             # that goes wrong after the questions - the answers given are in the input file all the same
             extra = ('--solution', os.path.join(tmp, 'no', 'such', 'directory', 'solution.ini'))
             res.count('sessions_with_unwritable_solution_path')
-        r, given = session(year, forms, path, a, fault=fault if kind in ('sigint', 'eof', 'invalid-sigint') else None, extra_args=extra)
+        if tilde:
+            os.chdir(tmp)
+            os.environ['HOME'] = os.path.join(tmp, 'home')
+        r, given = session(year, forms, path_arg, a, fault=fault if kind in ('sigint', 'eof', 'invalid-sigint') else None, extra_args=extra)
     finally:
         F.TypedField.value = orig
+        if tilde:
+            os.chdir(saved_cwd)
+            os.environ['HOME'] = saved_home if saved_home is not None else ''
     res.evaluations += 1
     res.count('faults_' + kind)
     rp = {'engine': 'cli-fault', 'shard': spec, 'fault': list(fault), 'forms': forms, 'initial': initial, 'answers_before_fault': given[-5:]}
@@ -336,9 +357,20 @@ def one_fault(res, spec, year, forms, tmp, initial, full_answers, lookup, fault,
         asked.append(name)
         return p2.answer(lookup.get(name))
     a2.lookup = lookup
-    r2, given2 = session(year, forms, path, a2)
+    if tilde:
+        os.chdir(tmp)
+        os.environ['HOME'] = os.path.join(tmp, 'home')
+    try:
+        r2, given2 = session(year, forms, path_arg, a2)
+    finally:
+        if tilde:
+            os.chdir(saved_cwd)
+            os.environ['HOME'] = saved_home if saved_home is not None else ''
     again = [nm for nm in asked if nm in {g[0] for g in given} or _lk(nm) in before]
     res.count('reruns')
+    import configparser as _cp
+    if isinstance(r2.exc, (_cp.Error, UnicodeError)):
+        res.violation(f'{tag}|rerun-cannot-read-the-file', f'{fault}: the re-run cannot read the file the interrupted session wrote back: {type(r2.exc).__name__}: {str(r2.exc)[:120]}', rp)
     if again:
         res.violation(f'{tag}|asked-again', f'{fault}: the re-run asked again for {again[:4]}', rp)
 
@@ -427,6 +459,12 @@ def pty_session(year, forms, path, answer_fn, fault=None, timeout=300):
                     n += 1
                 buf = b''
                 if fault and n == fault[1]:
+                    if len(fault_sent) > 40:
+                        # the key was pressed forty times at this question and the program keeps asking: it does not take the hint
+                        os.kill(pid, 9)
+                        os.waitpid(pid, 0)
+                        pid = None
+                        return 'keeps-asking', given
                     os.write(fd, b'\x03' if fault[0] == 'sigint' else b'\x04')
                     fault_sent.insert(0, time.time())
                     continue
@@ -475,6 +513,9 @@ def run_pty_shard(spec, tier, seed):
                 res.evaluations += 1
                 res.count('pty_faults_' + kind)
                 rp = {'engine': 'pty-fault', 'shard': spec, 'fault': [kind, k]}
+                if status == 'keeps-asking':
+                    res.violation(f'C20|pty-{kind}|keeps-asking-after-the-key', f'real terminal: {"Ctrl-C" if kind == "sigint" else "Ctrl-D (end of input)"} pressed forty times at question {k} and the program goes on asking the same question', rp)
+                    continue
                 if status is None:
                     res.inconclusive.append(f'pty session {spec} {kind}@{k} hit the watchdog')
                     hung = hung + 1
